@@ -205,7 +205,9 @@ func (c *FnCtx) uninterp(st *State, fname string, args []Val, resT *types.Tuple)
 		if len(as) == 0 {
 			e = f
 		}
-		c.assumeLoaded(st, rt, e)
+		if st != nil {
+			c.assumeLoaded(st, rt, e)
+		}
 		vs = append(vs, Val{T: rt, E: e})
 	}
 	return tupleVal(resT, vs)
